@@ -1,10 +1,8 @@
-import Vegeta.Go.Proto
-/-! Driver operations of property C03 (ops are named `c03.<name>`). -/
+import Vegeta.Driver.C02
+/-! Driver operations of property C03: the controlled-schedule acceptor is shared with C02
+(ops `c02.accept`, `c02.run`). -/
 namespace Vegeta.Driver.C03
-open Vegeta.Go Vegeta.Go.Proto
 
-def handle (_op : String) (args : List String) : Option String :=
-  match _op with
-  | _ => none
+def handle (op : String) (args : List String) : Option String := Vegeta.Driver.C02.handle op args
 
 end Vegeta.Driver.C03
